@@ -494,7 +494,9 @@ def mp4(d):
         if a["path"] == ilst_path and ilst is None:
             ilst = a
     free_adjacent = set()
+    tag_end = None
     if ilst is not None:
+        tag_end = ilst["off"] + ilst["size"]
         # a free atom directly before or after ilst (siblings under meta) is the tag padding
         meta = [a for a in mp4_flat(atoms) if a["path"] == ilst_path[:-1]][0]
         sib = meta["children"]
@@ -503,6 +505,8 @@ def mp4(d):
             if 0 <= j < len(sib) and sib[j]["name"] == b"free":
                 free_adjacent.add(sib[j]["off"])
                 padding += sib[j]["size"] - sib[j]["hdr"]
+                if j == i + 1:
+                    tag_end = sib[j]["off"] + sib[j]["size"]
         tags = []
         for c in ilst["children"]:
             body = d[c["off"] + c["hdr"]:c["off"] + c["size"]]
@@ -538,7 +542,7 @@ def mp4(d):
         need(o <= len(d), "mp4: %s entry %d points beyond the file (%d > %d)" % (kind.decode(), i, o, len(d)))
     foreign = [(b"/".join(p).decode("latin-1"), b) for p, b in leaves]
     return dict(foreign=foreign, tags=tags, padding=padding if ilst is not None else None,
-                extra=dict(offsets=offs, media=[d[o:o + 24] for _, _, _, o in offs], top=[a["name"] for a in atoms]))
+                extra=dict(offsets=offs, media=[d[o:o + 24] for _, _, _, o in offs], top=[a["name"] for a in atoms], tag_end=tag_end))
 
 
 # ---------------------------------------------------------------- ASF
